@@ -39,6 +39,20 @@ try:
         return True
 
     _ss.SequenceConcatenation.__eq__ = _seqcat_eq
+
+    # measured for the evidence file: number of solver-decided branch points (edges of the symbolic execution tree)
+    import atexit as _atexit
+    from crosshair import statespace as _sp
+
+    FORKS = [0]
+    _orig_choose = _sp.StateSpace.choose_possible
+
+    def _counting_choose(self, *a, **k):
+        FORKS[0] += 1
+        return _orig_choose(self, *a, **k)
+
+    _sp.StateSpace.choose_possible = _counting_choose
+    _atexit.register(lambda: sys.stderr.write("FORKS=%d\n" % FORKS[0]) if FORKS[0] else None)
     import lib.chfast  # noqa: F401  ASCII fast paths for casefold/isspace/isdigit/splitlines
 except Exception:
     pass
